@@ -42,9 +42,11 @@ def run(chk):
     from . import c20
     mu = prog.module("json_util.c")
     chk.require(mu is not None, "json_util.c not in the build")
-    c20.r2(chk, prog, mu)
+    with chk.shared():
+        c20.r2(chk, prog, mu)
     from . import c06
-    c06.r2(chk, prog)           # duplicate member names: the last value wins and the member keeps its first position (shared with C06)
+    with chk.shared():
+        c06.r2(chk, prog)           # duplicate member names: the last value wins and the member keeps its first position (shared with C06)
     chk.undecided_clauses += [
         "the numeric conversions themselves (strtod / strtoll / strtoull are trusted; R6 decides only that their results reach the node unmodified)",
         "UTF-8 bit arithmetic of the \\\\u decoder (only the branch structure and byte counts are decided)",
